@@ -16,6 +16,7 @@ import (
 	"regexp"
 	"strings"
 	"sync"
+	"syscall"
 	"time"
 )
 
@@ -83,14 +84,18 @@ func makeSourceTree(rng *rand.Rand, root string, shape int, big bool) []string {
 		perm := rng.Perm(len(names))
 		for i := 0; i < k; i++ {
 			p := filepath.Join(root, "s", names[perm[i]])
-			mk(p, sizes[rng.Intn(len(sizes))], rng.Intn(4))
+			if i == 0 {
+				mk(p, 513+rng.Intn(5000), 3) // always one file full of bytes the escape tables protect
+			} else {
+				mk(p, sizes[rng.Intn(len(sizes))], rng.Intn(4))
+			}
 			tops = append(tops, p)
 		}
 	case 1:
 		d := filepath.Join(root, "s", "tree")
 		os.MkdirAll(filepath.Join(d, "empty-dir"), 0755)
 		os.MkdirAll(filepath.Join(d, "sub", "deeper", "空"), 0755)
-		mk(filepath.Join(d, "top.txt"), sizes[rng.Intn(len(sizes))], rng.Intn(4))
+		mk(filepath.Join(d, "top.txt"), 513+rng.Intn(5000), 3)
 		mk(filepath.Join(d, "sub", "a.txt"), sizes[rng.Intn(len(sizes))], rng.Intn(4))
 		mk(filepath.Join(d, "sub", "deeper", "z.bin"), sizes[rng.Intn(len(sizes))], rng.Intn(4))
 		mk(filepath.Join(d, "sub", "deeper", "zero"), 0, 0)
@@ -104,7 +109,7 @@ func makeSourceTree(rng *rand.Rand, root string, shape int, big bool) []string {
 		// same base name twice, from different directories
 		p1 := filepath.Join(root, "s", "d1", "same.txt")
 		p2 := filepath.Join(root, "s", "d2", "same.txt")
-		mk(p1, sizes[rng.Intn(len(sizes))], rng.Intn(4))
+		mk(p1, 513+rng.Intn(5000), 3)
 		mk(p2, sizes[rng.Intn(len(sizes))], rng.Intn(4))
 		tops = append(tops, p1, p2)
 	}
@@ -173,8 +178,8 @@ func describeCfg(c e2eCfg) string {
 	if c.upload {
 		dir = "upload"
 	}
-	return fmt.Sprintf("%s binary=%v escape=%v dir=%v overwrite=%v compress=%q bufsize=%q proto=%d", dir, c.binary, c.escape,
-		c.directory, c.overwrite, c.compress, c.bufsize, c.proto)
+	return fmt.Sprintf("%s binary=%v escape=%v dir=%v overwrite=%v compress=%q bufsize=%q proto=%d relays=%d tunnel=%v", dir, c.binary, c.escape,
+		c.directory, c.overwrite, c.compress, c.bufsize, c.proto, c.relays, c.tunnel)
 }
 
 func genFidelity(c *ctx) {
@@ -183,19 +188,34 @@ func genFidelity(c *ctx) {
 	n := c.pick(96, 1500)
 	cases := make([]*fidCase, n)
 	protos := []int{-1, 0, 2, 3, 4, 9}
+	spinning := 0
 	for i := range cases {
 		fc := &fidCase{seed: c.rng.Int63(), shape: c.rng.Intn(3), big: c.rng.Intn(4) == 0}
+		// stratified: every (direction, base64/binary, protocol) combination occurs in every
+		// block of 24 cases; the remaining dimensions are drawn at random
+		combo := i % 24
 		fc.cfg = e2eCfg{
-			upload:    i%2 == 0,
-			binary:    c.rng.Intn(2) == 0,
+			upload:    combo%2 == 0,
+			binary:    (combo/2)%2 == 0,
+			proto:     protos[(combo/4)%len(protos)],
 			escape:    c.rng.Intn(3) == 0,
 			overwrite: c.rng.Intn(3) == 0,
 			compress:  []string{"", "yes", "no", "auto"}[c.rng.Intn(4)],
 			bufsize:   []string{"", "1k", "4k", "1M"}[c.rng.Intn(4)],
-			proto:     protos[c.rng.Intn(len(protos))],
 			timeout:   10,
 			quiet:     c.rng.Intn(2) == 0,
 			deadline:  40 * time.Second,
+			relays:    []int{0, 0, 1, 2}[c.rng.Intn(4)],
+			tunnel:    c.rng.Intn(4) == 0,
+		}
+		if fc.cfg.relays > 0 && fc.cfg.tunnel {
+			// a relay's tunnel pumps busy-loop for ever once their connection is closed
+			// (relay.go tunnelRelay.wrapInput/wrapOutput only leave on io.EOF; observed: 2 cores
+			// per finished tunnel transfer) - keep only a couple of these per run
+			spinning++
+			if spinning > 2 {
+				fc.cfg.tunnel = false
+			}
 		}
 		if fc.shape == 1 {
 			fc.cfg.directory = true
@@ -216,6 +236,23 @@ func genFidelity(c *ctx) {
 		dest := filepath.Join(root, "dest")
 		os.MkdirAll(dest, 0755)
 		fc.tops = makeSourceTree(rng, root, fc.shape, fc.big)
+		if fc.cfg.overwrite && fc.shape == 0 {
+			// overwrite onto a destination that already holds part of one source (resume path):
+			// a file whose remaining part is >= 128 KiB, destination = a prefix of it
+			p := filepath.Join(root, "s", "resume.bin")
+			content := fillBytes(rng, 300000+rng.Intn(100000), rng.Intn(3))
+			os.WriteFile(p, content, 0644)
+			fc.tops = append(fc.tops, p)
+			keep := []int{0, 1, 65536, 100000, len(content), len(content) - 1}[rng.Intn(6)]
+			pre := append([]byte(nil), content[:keep]...)
+			if rng.Intn(3) == 0 && keep > 10 {
+				pre[keep/2] ^= 0x55 // diverging inside the kept part
+			}
+			if rng.Intn(4) == 0 {
+				pre = append(pre, fillBytes(rng, 5000, 0)...) // longer than the source's prefix
+			}
+			os.WriteFile(filepath.Join(dest, "resume.bin"), pre, 0644)
+		}
 		if fc.chunk > 0 {
 			var mu sync.Mutex
 			crng := rand.New(rand.NewSource(fc.seed + 1))
@@ -280,6 +317,8 @@ func genFidelity(c *ctx) {
 		c.count(fmt.Sprintf("upload:%v", fc.cfg.upload))
 		c.count(fmt.Sprintf("binary:%v", fc.cfg.binary))
 		c.count(fmt.Sprintf("shape:%d", fc.shape))
+		c.count(fmt.Sprintf("relays:%d", fc.cfg.relays))
+		c.count(fmt.Sprintf("tunnel:%v", fc.cfg.tunnel))
 		if len(fc.diffs) > 0 {
 			key := "fidelity:" + strings.SplitN(fc.diffs[0], ":", 2)[0]
 			c.violate(key, "end-to-end transfer over a fault-free transport did not reproduce the source",
@@ -386,4 +425,29 @@ func genFds(c *ctx) {
 		}
 		os.RemoveAll(root)
 	}
+}
+
+func init() { groups["probe-spin"] = probeSpin }
+
+// probe: after a tunnel transfer through a relay, is a relay goroutine busy-looping?
+func probeSpin(c *ctx) {
+	work, _ := os.MkdirTemp("", "e2e_spin_")
+	defer os.RemoveAll(work)
+	rng := rand.New(rand.NewSource(1))
+	tops := makeSourceTree(rng, work, 0, false)
+	dest := filepath.Join(work, "dest")
+	os.MkdirAll(dest, 0755)
+	res := runTransfer(e2eCfg{upload: true, relays: 1, tunnel: true, timeout: 5, proto: -1, quiet: true}, tops, dest)
+	time.Sleep(2 * time.Second)
+	var ru1, ru2 syscall.Rusage
+	syscall.Getrusage(syscall.RUSAGE_SELF, &ru1)
+	time.Sleep(time.Second)
+	syscall.Getrusage(syscall.RUSAGE_SELF, &ru2)
+	cpu := float64(ru2.Utime.Nano()+ru2.Stime.Nano()-ru1.Utime.Nano()-ru1.Stime.Nano()) / 1e9
+	gs := goroutinesOf("tunnelRelay")
+	c.note(true, fmt.Sprintf("spin probe: transfer ok=%v; cpu used in 1 idle second: %.2fs; tunnelRelay goroutines: %d", res.clientDone, cpu, len(gs)))
+	for _, g := range gs {
+		fmt.Fprintln(os.Stderr, tailStr(g, 600))
+	}
+	fmt.Fprintf(os.Stderr, "cpu in idle second: %.2f\n", cpu)
 }
